@@ -29,6 +29,7 @@ from acryo._types import nm
 from acryo._dask import compute, DaskTaskList
 from acryo.loader import _misc
 from acryo.backend import Backend, AnyArray
+from acryo.pipe._classes import ImageProvider
 
 if TYPE_CHECKING:
     from dask.delayed import Delayed
@@ -449,6 +450,13 @@ class LoaderGroup(Generic[_K, _L]):
         elif isinstance(mask, np.ndarray):
             _mask = mask
             output_shape = mask.shape
+        elif isinstance(mask, ImageProvider):
+            # resolve the provider with the scale of the loaders in this group
+            _loaders = [loader for _, loader in self]
+            if len(_loaders) == 0:
+                raise RuntimeError("LoaderGroup has no loader.")
+            _mask = mask(_loaders[0].scale)
+            output_shape = _mask.shape
         else:
             _mask = 1
             output_shape = None
